@@ -20,6 +20,9 @@
 #include <condition_variable>
 #include <cstring>
 #include <functional>
+#include <future>
+#include <memory>
+#include <tuple>
 #include <mutex>
 #include <shared_mutex>
 #include <random>
@@ -330,6 +333,67 @@ public:
     static unsigned hardware_concurrency() noexcept { return rt_hw_concurrency(); }
 };
 
+// std::async / std::future inside namespace tlx: the task runs on a simulated thread (a real
+// std::async thread would run outside the scheduler).  launch::deferred runs the task in get()/wait().
+template <class R>
+class Future {
+    struct State {
+        Thread th;
+        ::std::function<void()> deferred;
+        typename ::std::conditional< ::std::is_void<R>::value, char, R>::type value{};
+        ::std::exception_ptr error;
+        bool done = false;
+    };
+    ::std::shared_ptr<State> st_;
+    void finish() {
+        if (!st_ || st_->done) return;
+        if (st_->deferred) { auto f = ::std::move(st_->deferred); st_->deferred = nullptr; f(); }
+        else if (st_->th.joinable()) st_->th.join();
+        st_->done = true;
+    }
+
+public:
+    Future() = default;
+    Future(Future&&) noexcept = default;
+    Future& operator=(Future&& o) noexcept { if (this != &o) { if (st_ && st_.use_count() == 1) finish(); st_ = ::std::move(o.st_); } return *this; }
+    ~Future() { if (st_ && st_.use_count() == 1) finish(); }   // like a future from std::async, the last one waits
+    bool valid() const noexcept { return bool(st_); }
+    void wait() { finish(); }
+    R get() {
+        finish();
+        auto s = ::std::move(st_);
+        if (s->error) ::std::rethrow_exception(s->error);
+        return static_cast<R>(::std::move(s->value));
+    }
+    template <class F>
+    static Future make(::std::launch policy, F&& task) {
+        Future fu;
+        fu.st_ = ::std::make_shared<State>();
+        State* sp = fu.st_.get();
+        auto body = [sp, t = ::std::forward<F>(task)]() mutable {
+            try { run(sp, t, ::std::is_void<R>()); } catch (...) { sp->error = ::std::current_exception(); }
+        };
+        if ((int(policy) & int(::std::launch::async)) != 0) sp->th = Thread(::std::move(body));
+        else sp->deferred = ::std::move(body);
+        return fu;
+    }
+
+private:
+    template <class T> static void run(State* sp, T& t, ::std::true_type) { t(); }
+    template <class T> static void run(State* sp, T& t, ::std::false_type) { sp->value = t(); }
+};
+
+template <class F, class... A>
+Future<typename ::std::invoke_result<typename ::std::decay<F>::type, typename ::std::decay<A>::type...>::type>
+async_shim(::std::launch policy, F&& f, A&&... a) {
+    using R = typename ::std::invoke_result<typename ::std::decay<F>::type, typename ::std::decay<A>::type...>::type;
+    auto bound = [fn = typename ::std::decay<F>::type(::std::forward<F>(f)),
+                  args = ::std::make_tuple(typename ::std::decay<A>::type(::std::forward<A>(a))...)]() mutable -> R {
+        return ::std::apply(::std::move(fn), ::std::move(args));
+    };
+    return Future<R>::make(policy, ::std::move(bound));
+}
+
 // tlx's parallel sample sort seeds its sampling RNG from a heap address
 // (std::minstd_rand rng(reinterpret_cast<uintptr_t>(samples.data()))): the
 // one source of nondeterminism in the library that is not scheduling.  The
@@ -388,6 +452,11 @@ using timed_mutex = ::sim::TimedMutex;
 using shared_mutex = ::sim::SharedMutex;
 using shared_timed_mutex = ::sim::SharedMutex;
 using atomic_flag = ::sim::AtomicFlag;
+template <class R> using future = ::sim::Future<R>;
+template <class F, class... A>
+auto async(::std::launch policy, F&& f, A&&... a) { return ::sim::async_shim(policy, ::std::forward<F>(f), ::std::forward<A>(a)...); }
+template <class F, class... A, class = typename ::std::enable_if<!::std::is_same<typename ::std::decay<F>::type, ::std::launch>::value>::type>
+auto async(F&& f, A&&... a) { return ::sim::async_shim(::std::launch::async, ::std::forward<F>(f), ::std::forward<A>(a)...); }
 template <class T>
 using atomic = ::sim::Atomic<T>;
 using minstd_rand = ::sim::SeededMinstd;
